@@ -24,7 +24,7 @@ pub fn corpus() -> Vec<Board> {
         .collect()
 }
 
-pub const COUNTERS: [u16; 14] = [0, 1, 2, 49, 50, 98, 99, 100, 101, 148, 149, 150, 151, 65534];
+pub const COUNTERS: [u16; 21] = [0, 1, 2, 9, 10, 49, 50, 98, 99, 100, 101, 148, 149, 150, 151, 999, 1000, 9999, 10000, 10001, 65534];
 
 fn pick_counter(rng: &mut StdRng) -> u16 {
     match rng.gen_range(0..10) {
@@ -179,12 +179,52 @@ pub fn placement_raw(rng: &mut StdRng) -> RawBoard {
         }
     }
     r.move_counter = pick_counter(rng);
-    r.move_number = match rng.gen_range(0..6) {
+    r.move_number = match rng.gen_range(0..7) {
         0 => 65535,
         1 => 65534,
+        2 => *[9u16, 10, 99, 100, 999, 1000, 9999, 10000, 10001].choose(rng).unwrap(),
         _ => rng.gen_range(1..300),
     };
     r
+}
+
+/// The longest FENs: 32 men that never touch (no digit is saved by run-length coding), all rights, an e.p.
+/// square and five-digit counters (89..93 bytes).
+pub const DENSE_FENS: [&str; 3] = [
+    "r1b1k1nr/1p1p1p1p/n1b1q1n1/1p1p1p2/1P1P1P2/N1B1Q1N1/1P1P1P1P/R1B1K1NR w KQkq d6 10000 10000",
+    "r1b1k1nr/1p1p1p1p/1n1q1b1p/2p1p1p1/P1P1P1P1/1N1Q1B1P/2P1P1P1/R1B1K1NR w KQkq e6 100 10000",
+    "r1b1k1n1/1p1p1p1p/p1p1p1p1/1n1q1b1r/R1B1Q1N1/1P1P1P1P/P1P1P1P1/1N1K1B1R w - - 65535 65535",
+];
+
+/// A random valid variant of one of the dense templates (piece kinds reshuffled, big counters).
+pub fn dense(rng: &mut StdRng) -> Board {
+    let base = RawBoard::from_fen(DENSE_FENS.choose(rng).unwrap()).unwrap();
+    for _ in 0..50 {
+        let mut r = base;
+        for i in 0..64 {
+            let c = r.cells[i];
+            if let (Some(col), Some(pc)) = (c.color(), c.piece()) {
+                if pc == Piece::King || !rng.gen_bool(0.3) {
+                    continue;
+                }
+                let rank = i / 8;
+                let np = match rng.gen_range(0..5) {
+                    0 if rank != 0 && rank != 7 => Piece::Pawn,
+                    1 => Piece::Knight,
+                    2 => Piece::Bishop,
+                    3 => Piece::Rook,
+                    _ => Piece::Queen,
+                };
+                r.cells[i] = Cell::from_parts(col, np);
+            }
+        }
+        r.move_counter = *[9999u16, 10000, 10001, 65535, 12345, 100].choose(rng).unwrap();
+        r.move_number = *[9999u16, 10000, 10001, 65535, 54321].choose(rng).unwrap();
+        if let Ok(b) = Board::try_from(r) {
+            return b;
+        }
+    }
+    Board::try_from(base).unwrap()
 }
 
 pub fn placement(rng: &mut StdRng) -> Board {
